@@ -20,11 +20,13 @@ PROP = {'engine': 'c14',
          'truncation: rlp.DecodeBytes must reject; (bytes) 110k (quick) mutations of valid encodings (16 kinds: bit flips, truncation, '
          'splice, length-prefix edits, node delete/dup/swap/kind flip, huge lengths, random) into all 72 RLP decoders (rlp.DecodeBytes, '
          'p2p.Msg.Decode, handshake stream) under recover(), decoded values then hashed / signers recovered / re-encoded, allocation per input '
-         '<= 64*len+1MiB; (text) 24k mutated JSON / hex / decimal / address texts into 38 JSON and text decoders, a transaction accepted '
+         '<= 64*len+1MiB, plus lists of 1k / 20k (thorough: 300k, recorded per decoder and judged at 256*len) one-byte items at every list position '
+         'of a transaction, block, account and discover response; (text) 24k mutated JSON / hex / decimal / address texts into 38 JSON and text decoders, a transaction accepted '
          'from JSON must have a wire form; (addr) 1.6k accounts x (text round trip in 4 casings, JSON, hex) x ~280 single-character '
          'substitutions / insertions / deletions / transpositions: rejected, or the canonical text of the account it decodes to. '
          'distinct = monitor x type x structural shape (tx type, optional fields, signature mode, log shape, mutation kind, outcome); '
-         'non-trivial = at least one structural choice / a mutation of a valid encoding (pure random strings are trivial)',
+         'non-trivial = at least one structural choice / a mutation of a valid encoding (pure random strings are trivial); thorough = x20; '
+         'the regression witnesses of the defects found on the unchanged tree (fixed.go) run in every tier and seed',
  'assumptions': ['decode targets are pre-initialised exactly as the repository call sites do (Asset: TotalSupply and Profile, account.go:468)',
                  'Event values carry only the consensus fields (the derived ones are documented as not encoded)',
                  'leniency of a typed decoder towards a second encoding of the same value (short hash padded, empty list for an rlp:"nil" '
@@ -35,5 +37,5 @@ PROP = {'engine': 'c14',
  'min_cases': {'quick': 150000, 'thorough': 3000000},
  'min_stats': {'quick': {'values_roundtripped': 19000, 'noncanonical_encodings_offered': 30000, 'byte_strings_offered': 100000,
                          'texts_offered': 20000, 'corrupted_address_texts': 300000, 'signer_sets_with_recovered_key': 3000},
-               'thorough': {'values_roundtripped': 400000, 'byte_strings_offered': 2000000}},
+               'thorough': {'values_roundtripped': 390000, 'byte_strings_offered': 2000000}},
  'timeout_s': {'quick': 600, 'thorough': 5400}}
